@@ -82,7 +82,8 @@ def run_tlc(spec: str, cfg: str, metadir: Path, workers: int = 8, extra: list[st
     cfgp = cfg if os.path.isabs(cfg) else str(SPEC / cfg)
     # (-Xss: the recursive operators of the trace specs walk lists of a few thousand entries; with the default thread stack the depth that
     #  fits depends on how much of TLC the JIT has compiled by then, i.e. on machine load)
-    jopts = ["-XX:+UseParallelGC", f"-Xmx{heap}", "-Xss64m"]
+    # (-Djava.io.tmpdir: TLC leaves a `tlc-<n>` directory per run in the JVM's temp directory; they go where the run's own scratch goes)
+    jopts = ["-XX:+UseParallelGC", f"-Xmx{heap}", "-Xss64m", f"-Djava.io.tmpdir={metadir}"]
     if deque:
         jopts.append("-Dtlc2.tool.queue.IStateQueue=StateDeque")
     cmd = ["java", *jopts, "-cp", TLC_JAR_CP, "tlc2.TLC", "-workers", str(workers), "-metadir", str(metadir),
